@@ -609,6 +609,10 @@ def oracle_c18(rec):
                                   '%s after op #%d: rx_buf %d octets, send queue %s' % (e, idx, st[1][0], st[8])))
                     break
         snap = rec.snap[e]
+        # ... and it becomes true once everything has drained
+        if not snap['closed'] and not snap['idle'] and not snap['tx_queue'] and snap['tx_tmp'] is None \
+                and snap['rx_tmp'] is None and not snap['rx_buf'] and not snap['msg_tx_buf'] and not snap['conn_tx_buf']:
+            fails.append(('C18 / idle indication stays false although nothing is queued, in progress, awaiting acknowledgement or buffered', e))
         if snap['idle'] and not snap['closed']:
             if snap['tx_queue'] or snap['rx_buf'] or snap['tx_tmp'] is not None or snap['rx_tmp'] is not None:
                 fails.append(('C18 / idle indication true while work is pending', e))
